@@ -75,24 +75,24 @@ type Out struct {
 
 // Trace of a run.
 type Trace struct {
-	Outs          []Out
-	WStart, WDone []int64 // per element (unite: per element of the slice, same value for all of a slice)
-	SliceOf       []int   // unite: index of the input slice an element belongs to
-	InLens        []int   // lengths of the input slices actually written (unite) / 1 per element (join)
-	CloseAt       int64
-	ClosedAt      int64 // consumer saw Output() closed; -1 never
-	ClosedBlocking bool // ... through a receive that was already blocked before Stop() returned
-	NewErr        string
-	Deadlock      string
-	Leaked        []string
+	Outs           []Out
+	WStart, WDone  []int64 // per element (unite: per element of the slice, same value for all of a slice)
+	SliceOf        []int   // unite: index of the input slice an element belongs to
+	InLens         []int   // lengths of the input slices actually written (unite) / 1 per element (join)
+	CloseAt        int64
+	ClosedAt       int64 // consumer saw Output() closed; -1 never
+	ClosedBlocking bool  // ... through a receive that was already blocked before Stop() returned
+	NewErr         string
+	Deadlock       string
+	Leaked         []string
 
-	ExtraDuringHold int // slices available on Output() while a no-copy slice was held
-	StopIssuedAt    int64
-	StopReturnedAt  int64 // -1: not returned
-	NotClosedAtStop bool  // Output() would have blocked right after Stop() returned
-	AfterStopOuts   int   // slices drained after Stop returned
+	ExtraDuringHold  int // slices available on Output() while a no-copy slice was held
+	StopIssuedAt     int64
+	StopReturnedAt   int64 // -1: not returned
+	NotClosedAtStop  bool  // Output() would have blocked right after Stop() returned
+	AfterStopOuts    int   // slices drained after Stop returned
 	ChangedAfterStop string
-	TimeoutFired    int
+	TimeoutFired     int
 }
 
 func (s Script) D() int64 {
